@@ -1,4 +1,315 @@
 //! Tracked element types, drop ledger and panic fuel (used by the collection drivers).
+//!
+//! `Tr` carries an identity (`id`, unique per instance), a value (`val`, what the std model stores)
+//! and a heap allocation (so that double drops / use after move become sanitizer events as well).
+//! `TrZ` is the zero-sized twin (counted, no identity).  Every user callback the library can reach
+//! (Clone, PartialEq, Drop, and the closures/iterators the drivers pass in) burns panic fuel.
+
+use std::cell::{Cell, RefCell};
+use std::mem::ManuallyDrop;
 
 /// Marker payload of an injected callback panic.
 pub struct FuelPanic;
+
+#[derive(Default)]
+pub struct Ledger {
+    /// drops[id] = number of times `Drop` ran for that identity
+    pub drops: Vec<u8>,
+    pub created: u64,
+    pub dropped: u64,
+    pub double_drops: Vec<u32>,
+    pub use_after_drop: Vec<u32>,
+    pub z_created: u64,
+    pub z_dropped: u64,
+    /// callbacks counted since the last reset (for fault enumeration)
+    pub callbacks: u64,
+    /// the injected panic came out of a `Drop` implementation
+    pub panicked_in_drop: bool,
+}
+
+thread_local! {
+    pub static LEDGER: RefCell<Ledger> = RefCell::new(Ledger::default());
+    static FUEL: Cell<Option<u64>> = const { Cell::new(None) };
+    static IN_DROP: Cell<u32> = const { Cell::new(0) };
+}
+
+pub fn reset_ledger() {
+    LEDGER.with(|l| *l.borrow_mut() = Ledger::default());
+    FUEL.with(|f| f.set(None));
+}
+
+pub fn set_fuel(f: Option<u64>) {
+    FUEL.with(|c| c.set(f));
+}
+
+pub fn fuel_armed() -> bool {
+    FUEL.with(|c| c.get().is_some())
+}
+
+/// Called by every callback.  Panics with `FuelPanic` when the fuel runs out.
+pub fn burn() {
+    LEDGER.with(|l| l.borrow_mut().callbacks += 1);
+    let fire = FUEL.with(|c| match c.get() {
+        Some(0) => {
+            c.set(None);
+            true
+        }
+        Some(n) => {
+            c.set(Some(n - 1));
+            false
+        }
+        None => false,
+    });
+    if fire {
+        if std::thread::panicking() {
+            // a second panic while unwinding would abort the process
+            return;
+        }
+        if IN_DROP.with(|d| d.get()) > 0 {
+            LEDGER.with(|l| l.borrow_mut().panicked_in_drop = true);
+        }
+        std::panic::panic_any(FuelPanic);
+    }
+}
+
+pub trait Elem: Sized + Clone + PartialEq + std::fmt::Debug + 'static {
+    const NAME: &'static str;
+    const ZST: bool = false;
+    const TRACKED: bool = false;
+    /// values are taken modulo this
+    const MODULUS: u32;
+    fn make(val: u32) -> Self;
+    fn val(&self) -> u32;
+    /// identity, for tracked non-zero-sized elements
+    fn id(&self) -> Option<u32> {
+        None
+    }
+    fn dup(&self) -> Self;
+    fn same(&self, other: &Self) -> bool {
+        self.val() == other.val()
+    }
+}
+
+macro_rules! plain_elem {
+    ($t:ty, $name:literal, $m:expr, $mk:expr, $val:expr) => {
+        impl Elem for $t {
+            const NAME: &'static str = $name;
+            const MODULUS: u32 = $m;
+            fn make(val: u32) -> Self {
+                ($mk)(val % $m)
+            }
+            fn val(&self) -> u32 {
+                ($val)(self)
+            }
+            fn dup(&self) -> Self {
+                *self
+            }
+        }
+    };
+}
+plain_elem!(u8, "u8", 251, |v: u32| v as u8, |s: &u8| *s as u32);
+plain_elem!(u32, "u32", 1_000_003, |v: u32| v, |s: &u32| *s);
+plain_elem!(u64, "u64", 1_000_003, |v: u32| (v as u64) * 0x1_0000_0001, |s: &u64| (*s & 0xFFFF_FFFF) as u32);
+plain_elem!([u8; 3], "[u8;3]", 1 << 24, |v: u32| [v as u8, (v >> 8) as u8, (v >> 16) as u8], |s: &[u8; 3]| s[0] as u32 | (s[1] as u32) << 8 | (s[2] as u32) << 16);
+
+impl Elem for () {
+    const NAME: &'static str = "()";
+    const ZST: bool = true;
+    const MODULUS: u32 = 1;
+    fn make(_: u32) -> Self {}
+    fn val(&self) -> u32 {
+        0
+    }
+    fn dup(&self) -> Self {}
+}
+
+pub struct Tr {
+    pub id: u32,
+    pub val: u32,
+    heap: ManuallyDrop<Box<u32>>,
+}
+
+impl Tr {
+    pub fn new(val: u32) -> Tr {
+        let id = LEDGER.with(|l| {
+            let mut l = l.borrow_mut();
+            l.drops.push(0);
+            l.created += 1;
+            (l.drops.len() - 1) as u32
+        });
+        Tr { id, val, heap: ManuallyDrop::new(Box::new(val ^ 0x5A5A)) }
+    }
+    fn check_alive(&self) {
+        let dead = LEDGER.with(|l| l.borrow().drops.get(self.id as usize).copied().unwrap_or(1) > 0);
+        if dead {
+            LEDGER.with(|l| l.borrow_mut().use_after_drop.push(self.id));
+        } else if **self.heap != self.val ^ 0x5A5A {
+            LEDGER.with(|l| l.borrow_mut().use_after_drop.push(self.id));
+        }
+    }
+}
+
+impl Drop for Tr {
+    fn drop(&mut self) {
+        let first = LEDGER.with(|l| {
+            let mut l = l.borrow_mut();
+            let d = &mut l.drops[self.id as usize];
+            *d = d.saturating_add(1);
+            let first = *d == 1;
+            if first {
+                l.dropped += 1;
+            } else {
+                let id = self.id;
+                l.double_drops.push(id);
+            }
+            first
+        });
+        if first {
+            unsafe { ManuallyDrop::drop(&mut self.heap) };
+        }
+        IN_DROP.with(|d| d.set(d.get() + 1));
+        struct Dec;
+        impl Drop for Dec {
+            fn drop(&mut self) {
+                IN_DROP.with(|d| d.set(d.get() - 1));
+            }
+        }
+        let _dec = Dec;
+        burn();
+    }
+}
+
+impl Clone for Tr {
+    fn clone(&self) -> Tr {
+        burn();
+        self.check_alive();
+        Tr::new(self.val)
+    }
+}
+impl PartialEq for Tr {
+    fn eq(&self, o: &Tr) -> bool {
+        burn();
+        self.check_alive();
+        o.check_alive();
+        self.val == o.val
+    }
+}
+impl std::fmt::Debug for Tr {
+    fn fmt(&self, f: &mut std::fmt::Formatter<'_>) -> std::fmt::Result {
+        write!(f, "Tr#{}({})", self.id, self.val)
+    }
+}
+
+impl Elem for Tr {
+    const NAME: &'static str = "Tr";
+    const TRACKED: bool = true;
+    const MODULUS: u32 = 16;
+    fn make(val: u32) -> Self {
+        Tr::new(val % 16)
+    }
+    fn val(&self) -> u32 {
+        self.check_alive();
+        self.val
+    }
+    fn id(&self) -> Option<u32> {
+        Some(self.id)
+    }
+    fn dup(&self) -> Self {
+        Tr::new(self.val)
+    }
+}
+
+/// zero-sized tracked element
+pub struct TrZ;
+impl TrZ {
+    pub fn new() -> TrZ {
+        LEDGER.with(|l| l.borrow_mut().z_created += 1);
+        TrZ
+    }
+}
+impl Drop for TrZ {
+    fn drop(&mut self) {
+        LEDGER.with(|l| l.borrow_mut().z_dropped += 1);
+        IN_DROP.with(|d| d.set(d.get() + 1));
+        struct Dec;
+        impl Drop for Dec {
+            fn drop(&mut self) {
+                IN_DROP.with(|d| d.set(d.get() - 1));
+            }
+        }
+        let _dec = Dec;
+        burn();
+    }
+}
+impl Clone for TrZ {
+    fn clone(&self) -> TrZ {
+        burn();
+        TrZ::new()
+    }
+}
+impl PartialEq for TrZ {
+    fn eq(&self, _: &TrZ) -> bool {
+        burn();
+        true
+    }
+}
+impl std::fmt::Debug for TrZ {
+    fn fmt(&self, f: &mut std::fmt::Formatter<'_>) -> std::fmt::Result {
+        write!(f, "TrZ")
+    }
+}
+impl Elem for TrZ {
+    const NAME: &'static str = "TrZ";
+    const ZST: bool = true;
+    const TRACKED: bool = true;
+    const MODULUS: u32 = 1;
+    fn make(_: u32) -> Self {
+        TrZ::new()
+    }
+    fn val(&self) -> u32 {
+        0
+    }
+    fn dup(&self) -> Self {
+        TrZ::new()
+    }
+}
+
+/// Snapshot of the ledger used by the conservation oracle.
+pub struct LedgerView {
+    pub created: u64,
+    pub dropped: u64,
+    pub z_live: i64,
+    pub double_drops: Vec<u32>,
+    pub use_after_drop: Vec<u32>,
+    pub live_ids: Vec<u32>,
+    pub panicked_in_drop: bool,
+    pub callbacks: u64,
+}
+
+pub fn ledger_view() -> LedgerView {
+    LEDGER.with(|l| {
+        let l = l.borrow();
+        LedgerView {
+            created: l.created,
+            dropped: l.dropped,
+            z_live: l.z_created as i64 - l.z_dropped as i64,
+            double_drops: l.double_drops.clone(),
+            use_after_drop: l.use_after_drop.clone(),
+            live_ids: l.drops.iter().enumerate().filter(|(_, d)| **d == 0).map(|(i, _)| i as u32).collect(),
+            panicked_in_drop: l.panicked_in_drop,
+            callbacks: l.callbacks,
+        }
+    })
+}
+
+pub fn clear_incidents() {
+    LEDGER.with(|l| {
+        let mut l = l.borrow_mut();
+        l.double_drops.clear();
+        l.use_after_drop.clear();
+    });
+}
+
+pub fn callbacks() -> u64 {
+    LEDGER.with(|l| l.borrow().callbacks)
+}
